@@ -517,7 +517,15 @@ def run(tier, is_known):
     for mode, depth, init in (("api", 5 if thorough else 3, ()), ("req", 4 if thorough else 2, ()), ("act", 4 if thorough else 2, ()),
                               ("api", 5 if thorough else 3, USED), ("req", 4 if thorough else 3, USED)):
         ad = AclOps(mode, init=init)
-        r = engine.bfs(ad, depth, state_budget=200000, time_budget=1200 if thorough else 40, is_known=is_known)
+        try:
+            r = engine.bfs(ad, depth, state_budget=200000, time_budget=1200 if thorough else 40, is_known=is_known)
+        except engine.HarnessError as e:
+            if not viols:
+                raise
+            # the product part has already shown a violation (e.g. counters shared between lists make replays differ):
+            # report that instead of losing it behind the explorer's own determinism self-check
+            per.append({"adapter": ad.name, "not_explored": "explorer self-check failed after a violation was found: %s" % str(e)[:200]})
+            continue
         viols += r.violations
         states += r.states
         trans += r.transitions
@@ -529,7 +537,7 @@ def run(tier, is_known):
         "states": states + len(items), "transitions": trans + evals,
         "traces_validated_against_impl": trans + evals,
         "samples": samples,
-        "exhaustive": all(p["cap"] is None for p in per),
+        "exhaustive": all(p.get("cap", "x") is None for p in per),
         "rule_configurations": len(items), "single_rule_configurations": n_single,
         "verdicts_compared": evals, "verdicts_decided_by_a_rule": nontrivial,
         "packets": len(packets()), "from_config_variants": cfg_variants, "operation_harnesses": per,
